@@ -19,6 +19,15 @@ THEOREMS = [
     'C04_tilde_in_string_impl', 'C04_layout_markers', 'C04_closes_land_on_last', 'C04_nonvacuous',
 ]
 
+
+def patient(fn, *args, seconds=5):
+    """timed(), but a first expiry is retried once with a long budget: on a loaded machine a
+    millisecond call can be descheduled for seconds; only a second expiry counts as a hang"""
+    try:
+        return timed(fn, *args, seconds=seconds)
+    except Timeout:
+        return timed(fn, *args, seconds=120)
+
 # ---------------------------------------------------------------------------------------
 # wire decoding of the spec's reading
 
@@ -207,7 +216,7 @@ def run(chk):
     for _ in range(n_text):
         text = gen.random_penman_text(rng, p_bad=0.03)
         try:
-            t = timed(codec.parse, text, seconds=5)
+            t = patient(codec.parse, text)
         except DecodeError:
             chk.stat('text-unparseable')
             continue
@@ -248,7 +257,7 @@ def run(chk):
         mod = results[2 * idx + 1]
         chk.count((name, repr(node)), nontrivial=bool(node[1]))
         try:
-            impl = timed(impl_interpret, node, meta, m, seconds=5)
+            impl = patient(impl_interpret, node, meta, m)
         except Timeout:
             chk.fail('error-kind', 'interpret does not terminate', case)
             continue
@@ -291,7 +300,7 @@ def run(chk):
             if mi not in codecs:
                 codecs[mi] = PENMANCodec(model=m)
             try:
-                g2 = timed(codecs[mi].decode, text, seconds=5)
+                g2 = patient(codecs[mi].decode, text)
                 o2 = observe(g2)
             except Exception as e:
                 o2 = type(e).__name__
